@@ -63,8 +63,17 @@
 //!     fuel runs out), `vars` = the outer variables assigned in the body.
 //! 12. Statements under `#[cfg(feature = "nightly")]` are dropped (no verified configuration
 //!     enables it).  `unsafe { e }` is `e`.
+//! 13. `u64::MAX`, `i32::MIN`, `u32::BITS`, … and `<int>::max_value()` / `min_value()` are the literal
+//!     values (of that integer type; `BITS` is a `u32`).
 //! Anything else (other statements, patterns, methods, macros, types, nested shadowing of an
-//! outer variable, labelled blocks, `loop`, `for`, …) is an error: the translator fails closed.
+//! outer variable, labelled blocks, `loop`, `for`, …) is an error, and the translator fails closed
+//! PER FUNCTION: a function that cannot be translated is omitted from the output (a comment
+//! `(* OMITTED rs_<name>: <reason> *)` takes its place), and so are, transitively, the functions
+//! that call it; each omission is reported on stderr, followed by `rs2coq: omitted: <names|none>`,
+//! and the exit status is 0.  The equivalence proofs then fail to compile exactly where they
+//! mention an omitted definition.  Exit 2 is reserved for problems that make the whole output
+//! meaningless (a source file is missing or does not parse, or a struct / trait / table
+//! declaration that the mapping of rules 9-10 relies on has changed).
 
 mod emit;
 mod expr;
@@ -405,7 +414,12 @@ fn main() {
         ],
         false,
     );
-    let mut g = Globals { float_consts: HashMap::new(), fns: HashMap::new(), consts: HashMap::new() };
+    let mut g = Globals {
+        float_consts: HashMap::new(),
+        fns: HashMap::new(),
+        consts: HashMap::new(),
+        omitted: Default::default(),
+    };
     for it in &files["num.rs"].items {
         if let syn::Item::Trait(t) = it {
             if t.ident == "Float" {
@@ -455,38 +469,40 @@ fn main() {
         GConst { ty: Ty::Powers, term: "BT".into(), needs: Needs { c: false, t: false, bt: true, f: false } },
     );
 
-    // ---- translate
+    // ---- translate (keep going: a function that cannot be translated is omitted, and so are,
+    // transitively, its callers; the proofs then fail exactly where they mention it)
     let only: Vec<String> = args[2..].to_vec();
     let mut out = prelude();
-    let mut nerr = 0;
+    let mut omitted: Vec<String> = vec![];
     for (file, owner, name, fuel) in TARGETS {
         if !only.is_empty() && !only.contains(&name.to_string()) {
             continue;
         }
-        let (sig, body) = match find_fn(&files[*file], owner, name) {
-            Some(x) => x,
-            None => fail(format!("{}: function {}{}{} not found", file, owner, if owner.is_empty() { "" } else { "::" }, name)),
+        let key = if owner.is_empty() { name.to_string() } else { format!("{}::{}", owner, name) };
+        let res = match find_fn(&files[*file], owner, name) {
+            Some((sig, body)) => translate(&g, owner, sig, body, *fuel),
+            None => Err("function not found in the source file".to_string()),
         };
-        match translate(&g, owner, sig, body, *fuel) {
+        match res {
             Ok((fi, def)) => {
-                let key = if owner.is_empty() { name.to_string() } else { format!("{}::{}", owner, name) };
-                out.push_str(&format!("(** {} : `{}{}{}` *)\n", file, owner, if owner.is_empty() { "" } else { "::" }, name));
+                out.push_str(&format!("(** {} : `{}` *)\n", file, key));
                 out.push_str(&def);
                 out.push('\n');
                 g.fns.insert(key, fi);
             }
             Err(e) => {
-                eprintln!(
-                    "rs2coq: ERROR: {}: fn {}: {}\n  (construct outside the supported subset — see the translation rules in tools/rs2coq/src/main.rs)",
-                    file, name, e
-                );
-                nerr += 1;
+                let reason = format!("{}: {}", file, e).replace("(*", "( *").replace("*)", "* )").replace('\n', " ");
+                eprintln!("rs2coq: OMITTED rs_{}: {}", name, reason);
+                out.push_str(&format!("(* OMITTED rs_{}: {} *)\n\n", name, reason));
+                g.omitted.insert(key);
+                omitted.push(name.to_string());
             }
         }
     }
-    if nerr > 0 {
-        eprintln!("rs2coq: {} function(s) could not be translated; no output written", nerr);
-        std::process::exit(3);
+    if omitted.is_empty() {
+        eprintln!("rs2coq: omitted: none");
+    } else {
+        eprintln!("rs2coq: omitted: {}", omitted.join(" "));
     }
     print!("{}", out);
 }
